@@ -332,7 +332,7 @@ def execute(scn, L):
     pairs = [p.split(b'=', 1) for p in optstr[1:].split(b', ')] \
         if optstr and parsed[2] else []
     keys = [p[0] for p in pairs]
-    vals = [p[1].decode('ascii') for p in pairs]
+    vals = [p[1].decode('ascii').rstrip('\r') for p in pairs]
 
     if len(set(keys)) == len(keys) and \
        not any(gen.int_corner(v) for v in vals) and \
